@@ -5,6 +5,7 @@ extern unsigned long model_g_map, model_g_set;
 extern unsigned long model_last_map, model_last_set, model_last2_map, model_last2_set, model_last3_map, model_last3_set;
 extern unsigned long model_pick_map, model_pick_set, model_pick2_map, model_pick2_set, model_pick3_map, model_pick3_set;
 extern unsigned long model_hint_map, model_hint_set;
+extern unsigned long model_g_vec;
 #define NONE (~0ul)
 #define SKIP (~0ul - 1)
 /* ghost globals a function doing map (set) lookups writes: part of its assigns clause */
@@ -15,6 +16,7 @@ unsigned long model_g_map, model_g_set;
 unsigned long model_last_map, model_last_set, model_last2_map, model_last2_set, model_last3_map, model_last3_set;
 unsigned long model_pick_map, model_pick_set, model_pick2_map, model_pick2_set, model_pick3_map, model_pick3_set;
 unsigned long model_hint_map, model_hint_set;
+unsigned long model_g_vec;
 unsigned long nondet_ulong(void);
 static void model_ghost_havoc(void)
 {
@@ -23,7 +25,7 @@ static void model_ghost_havoc(void)
   model_last3_map = nondet_ulong(); model_last3_set = nondet_ulong();
   model_pick_map = nondet_ulong(); model_pick_set = nondet_ulong(); model_pick2_map = nondet_ulong(); model_pick2_set = nondet_ulong();
   model_pick3_map = nondet_ulong(); model_pick3_set = nondet_ulong();
-  model_hint_map = NONE; model_hint_set = NONE;
+  model_hint_map = NONE; model_hint_set = NONE; model_g_vec = nondet_ulong();
 }
 #endif
 #endif
